@@ -749,9 +749,10 @@ def rule_ts_gate(ctx: RuleContext, ts: TS, rid: str) -> None:
             return A
         if t == f'{tv}.store_handle is None':
             return not A
-        if isinstance(e, ast.Compare) and len(e.ops) == 1 and isinstance(e.ops[0], (ast.Is, ast.IsNot)) and 'store' in t \
-                and norm(e.comparators[0]) in ('self',) and norm(e.left).endswith('.block.store'):
-            return S if isinstance(e.ops[0], ast.Is) else not S
+        if isinstance(e, ast.Compare) and len(e.ops) == 1 and isinstance(e.ops[0], (ast.Is, ast.IsNot)) and 'store' in t:
+            sides = sorted([norm(e.left), norm(e.comparators[0])], key=len)
+            if sides[0] == 'self' and sides[1].endswith('.block.store'):
+                return S if isinstance(e.ops[0], ast.Is) else not S
         if isinstance(e, ast.Compare) and len(e.ops) == 2 and all(isinstance(o, ast.LtE) for o in e.ops) \
                 and norm(e.left) == fn.params[2] and norm(e.comparators[1]) == fn.params[3] and 'block.index' in norm(e.comparators[0]) \
                 and norm(e.comparators[0]).count('.index') == 2:
